@@ -149,6 +149,7 @@ func runWorkload(w Workload, dir string, hangLimit time.Duration) (res runResult
 	var mu sync.Mutex
 	var txid atomic.Int64
 	add := func(t hist.Txn) {
+		progress.Add(1)
 		mu.Lock()
 		res.hist = append(res.hist, t)
 		mu.Unlock()
@@ -289,11 +290,18 @@ func runWorkload(w Workload, dir string, hangLimit time.Duration) (res runResult
 	done := make(chan struct{})
 	go func() { wg.Wait(); close(done) }()
 	finished := false
-	for waited := time.Duration(0); waited < 6*hangLimit && !finished; waited += hangLimit {
+	lastP, idle := progress.Load(), 0
+	for rounds := 0; rounds < 40 && idle < 6 && !finished; rounds++ {
 		select {
 		case <-done:
 			finished = true
 		case <-time.After(hangLimit):
+			// slow is not stuck: as long as transactions keep finishing, keep waiting
+			if now := progress.Load(); now != lastP {
+				lastP, idle = now, 0
+			} else {
+				idle++
+			}
 			if dump := goroutineDump(); deadlocked(dump) {
 				// the workers are stuck for good and still own res: hand back a detached result
 				mu.Lock()
@@ -451,7 +459,7 @@ func trimDump(d string) string {
 
 // which problem kinds a property owns in the concurrent engine
 var owns = map[string]map[string]bool{
-	"C12": {"panic": true, "own_write_read": true, "unexpected_error": true, "snapshot_history": true, "not_serializable": true, "over_abort": true},
+	"C12": {"deadlock": true, "panic": true, "own_write_read": true, "unexpected_error": true, "snapshot_history": true, "not_serializable": true, "over_abort": true},
 	"C05": {"snapshot_history": true, "own_write_read": true},
 	"C06": {"not_serializable": true},
 	"C07": {"over_abort": true},
@@ -829,6 +837,7 @@ func runStress(s Stress, dir string) (problems []problem, acked int64) {
 				}
 				if err == nil {
 					ack[ki].Add(1)
+					progress.Add(1)
 					done++
 				} else if !errors.Is(err, originium.ErrConflictTxn) {
 					prob("unexpected_error", err.Error())
